@@ -15,7 +15,7 @@ from harness.core import enc_val, exc_name
 # --------------------------------------------------------------------------------------
 INTS = [0, 1, 2, 3, -1, -2]
 IFLOATS = [0.0, 1.0, 2.0, -1.0, -2.0]
-FLOATS = [0.5, 2.5, -0.5, 1e-9 + 1.0]
+FLOATS = [0.5, 2.5, -0.5, 1e-9 + 1.0, 1e-10, 5e-10, 1.0 + 3e-10]   # incl. values within 1e-9 of 0 and of 1
 BOOLS = [True, False]
 STRS = ["a", "b", "ab", "1", ""]
 LISTS = [[], [1], [1, 2], [1.0], ["a"], [True], [[1]], [1, "a"], [None]]
@@ -121,7 +121,10 @@ def rand_corpus(rng, nmax=6, typed=None):
 CMP_OPS = ["$gt", "$gte", "$lt", "$lte"]
 TYPE_NAMES = ["int", "float", "bool", "str", "list", "null"]
 REGEXES = ["a", "^a", "b$", ".", "^$", "[0-9]"]
-NEAR_ARGS = [1, 1.0, 0.5, [1], [2.4, 0.1], [1, 0.5, 0.5], [0, 0.0, 1.0], True, "1.0", [1, "0.5"]]
+NEAR_ARGS = [1, 1.0, 0.5, [1], [2.4, 0.1], [1, 0.5, 0.5], [0, 0.0, 1.0], True, "1.0", [1, "0.5"],
+             # every arity with values within the DEFAULT tolerances of stored values: [v] -> rel 1e-9, abs 0;
+             # [v, rel] -> abs stays 0; [v, rel, abs]
+             [1e-10, 0.01], [0.0, 0.05], [1.0, 0.0], [1.0, 1e-12], [0], [0.0], [1.0, 0.0, 1e-9], 0, 0.0]
 # (spelling, namespace, path) of every key the small-scope grammar uses
 KEY_SPELLINGS = ["a", "b", "sp.a", "n.x", "n.y", "sp.n.x", "n", "doc.a", "doc.d", "doc.m.x", "doc.m",
                  "spin", "sp.spin", "docs", "doc.spin"]
